@@ -57,11 +57,14 @@ CLAIMED = {
              "non-termination as values) is ported line by line to an executable Lean model and compared with Rule::apply on ~27k generated "
              "(rule, word) cases per quick run (400k thorough) through the AST hook - identical outcome class and identical resulting word; and an "
              "independent reference interpreter written from the manual is compared with the implementation over the basic fragment (~110k cases "
-             "quick, 2.4M thorough). Machine-checked so far: only the structural facts (a rule whose input matches nowhere is the identity; empty "
-             "word); the refinement theorem `basic_refines` (model = manual's reading on the fragment) is NOT yet proved - hence this level.",
+             "quick, 2.4M thorough). Machine-checked: a rule whose input matches nowhere is the identity (any rule type but insertion; empty word); "
+             "and ONE STEP of a basic rule `A > t` (substitution_basic_step, rewriteRun_frame, setSyll_frame): given the capture of a segment at a "
+             "position, the substitution step returns, changes only the syllable of the match, in it replaces exactly the matched run by `t`, keeps "
+             "stress and tone, leaves every segment before and after in place, and resumes the search right after the new segment. The whole-scan "
+             "refinement `basic_refines` (all steps composed = the manual's reading) is NOT proved - hence this level.",
         note="Trusted: harness reference interpreter (frag.rs), hooks, generators. Not a proof of the property: validation of model and code against "
              "the documented semantics on generated inputs.",
-        technique="Lean 4 executable port + model/impl correspondence + reference interpreter from the manual (theorem pending)",
+        technique="Lean 4 executable port + step/frame theorems + model/impl correspondence + reference interpreter from the manual",
         design="§4 C03"),
     "C04": dict(
         text="Machine-checked theorems about a line-by-line Lean model of SubRule::match_modifiers / Segment::apply_seg_mods: a binary feature "
@@ -83,8 +86,8 @@ CLAIMED = {
              "The property itself (36 states x 405 modifier combinations x match/set x element kinds x 3 positions) is evaluated exhaustively on the "
              "implementation through the rule pipeline against the table model.",
         note="Trusted: Lean kernel, standard axioms. The theorems are about the syllable-level functions; where the interpreter applies them is the scan "
-             "loop's business, whose defect D5 (a long target run is re-entered after a length-setting substitution) is a known finding "
-             "(known_findings.json), reported as KNOWN-FINDING, not proved away. Alphas on suprasegmentals are modelled but only binary modifiers are "
+             "loop's business; its defect D5 (a long target run was re-entered after a length-setting substitution) was found by this check "
+             "and repaired by a fix: commit (ead3730). Alphas on suprasegmentals are modelled but only binary modifiers are "
              "covered by the theorems.",
         technique="Lean 4 theorems over ported syll.rs + exhaustive table-model evaluation on impl",
         design="§4 C05"),
